@@ -175,8 +175,24 @@ def constructed(rng):
             out.append("%s %s %s %s" % (rng.choice(("mul", "cmul")), rng.choice(("vv", "*", "rr")), l, r))
     # 5e. identical operands (x * x; the driver also runs `&x * &x` with both references to one object)
     for s in range(19):
-        for c in (0, 1, -1, 5, P10[s], 13043817825, -13043817826, rng.getrandbits(63), G.small_coeff(rng, 60)):
+        for c in (0, 1, -1, 5, P10[s], 13043817825332782212, -13043817825332782213, rng.getrandbits(63), G.small_coeff(rng, 60)):
             out.append("%s * %s %s" % (rng.choice(("mul", "cmul")), G.fD(c, s), G.fD(c, s)))
+    # 5f. both factors next to the integer square root of a primitive-type maximum (a pre-check "both operands are
+    #     small enough, skip the checked multiply" has its threshold there), within 1e11 of it, all sign pairs
+    import math
+    for T in G.TYPE_MAXIMA:
+        r = math.isqrt(T)
+        ds = [0, 1, -1, 2, -2] + [rng.randrange(-10 ** 11, 10 ** 11) for _ in range(6)] + [rng.randrange(-10 ** 5, 10 ** 5) for _ in range(4)]
+        for d1 in ds:
+            d2 = rng.choice(ds)
+            a, b = r + d1, r + d2
+            if not (0 < a <= M and 0 < b <= M):
+                continue
+            p = rng.randrange(0, 19)
+            q = rng.randrange(0, 19)
+            sx, sy = rng.choice((1, -1)), rng.choice((1, -1))
+            dd(sx * a, p, sy * b, q)
+            dd(sx * a, p, sy * a, q)
     # 6. zero / one operands in every representation
     for s in range(19):
         for t in (0, 5, 18):
